@@ -100,6 +100,23 @@ def run_one(args):
             return {"id": m["id"], "status": "error", "detail": "mutant does not compile"}
         prog = Program(root=root, overlay=ov)
         cg = CallGraph(prog)
+        if m.get("all_checks"):
+            # a behaviour-preserving change: every property's check must stay silent on it
+            known = load_known()
+            shared = {}
+            bad = []
+            for i in range(1, 21):
+                p_ = "C%02d" % i
+                c_ = Context(p_, prog, cg, "quick", shared)
+                try:
+                    importlib.import_module("rules.%s" % p_.lower()).run(c_)
+                except AnalysisError as e:
+                    bad.append((p_, "ANALYSIS-ERROR", str(e)[:120]))
+                    continue
+                bad += [(f.rule, f.where, f.message[:100]) for f in c_.findings if match_known(f, known) is None]
+            if bad:
+                return {"id": m["id"], "status": "false-alarm", "detail": "%s" % bad}
+            return {"id": m["id"], "status": "ok", "wall": time.time() - t0}
         mod = importlib.import_module("rules.%s" % m["property"].lower())
         ctx = Context(m["property"], prog, cg, "quick", {})
         try:
